@@ -155,6 +155,6 @@ def parse(version, s):
     parts = s.split("/")
     minor = None
     if version != 2:
-        minor = parts[0].split(":")[1]
+        minor = parts[0].split(":")[1].split(".")[1]
         parts = parts[1:]
     return dict(p.split(":") for p in parts), minor
